@@ -154,6 +154,22 @@ pub fn catalogue(w: &World, tier: &str, seed: u64, reps: usize) -> Vec<FaultCase
             if c != cfg.p_eval && !cfg.name.ends_with("-ops") {
                 let plan = FaultPlan { corrupt: c, actions: vec![], crash: None, seed: seed ^ 0x7a9 ^ ((ci as u64) << 40) ^ ((c as u64) << 32) };
                 push(plan.clone(), "tap:garble.row_bit:all-rows".into(), "tap:garble.row_bit", vec![cfg.p_eval], false, Some(("garble.row_bit".into(), usize::MAX)));
+                // the wrong share bit in the rows of ONE gate: the first, a middle and the last AND gate (a check
+                // that is deferred or batched must still cover the tail of the circuit)
+                {
+                    use polytune::garble_lang::register_circuit::Op;
+                    let and_ws: Vec<usize> = cfg.circ.insts.iter().enumerate().filter(|(_, i)| matches!(i.op, Op::And(_))).map(|(w, _)| w).collect();
+                    if !and_ws.is_empty() {
+                        let mut picks = vec![("first", and_ws[0]), ("last", and_ws[and_ws.len() - 1])];
+                        if and_ws.len() > 2 { picks.push(("middle", and_ws[and_ws.len() / 2])); }
+                        if and_ws.len() > 1000 { picks.push(("last-of-first-chunk", and_ws[999])); picks.push(("first-of-second-chunk", and_ws[1000])); }
+                        for (pname, w) in picks {
+                            let mut p3 = plan.clone();
+                            p3.seed ^= h64(pname) ^ (w as u64);
+                            push(p3, format!("tap:garble.row_bit:one-gate:{pname}"), "tap:garble.row_bit", vec![cfg.p_eval], false, Some(("garble.row_bit@gate".into(), w)));
+                        }
+                    }
+                }
                 // rows re-built by the garbler: bit flipped, label share shifted consistently, MAC list
                 // complete / cut to one entry / empty
                 if !cfg.name.ends_with("-big") {
